@@ -316,13 +316,16 @@ fn run_job(job: &Value) -> Value {
         out.insert("values".into(), Value::Object(values));
         // ---- calls (each independent; results dropped immediately)
         let mut calls = Vec::new();
+        let mut calls_touched = Vec::new();
         if let Some(names) = job.get("calls").and_then(|v| v.as_array()) {
             for n in names {
                 let n = n.as_str().unwrap_or("");
                 calls.push(json!(call_fn(scope, n)));
+                calls_touched.push(touched());
             }
         }
         out.insert("calls".into(), Value::Array(calls));
+        out.insert("calls_touched".into(), Value::Array(calls_touched));
         // ---- host history
         let mut ops_out = Vec::new();
         let mut kept: Vec<EvaluatedValue<W, R, T>> = Vec::new();
